@@ -1,5 +1,5 @@
 (* Props/C08.v — property theorems only. *)
-From YQ Require Import Base.Str Model.Node Model.Store Model.Eval Proofs.EvalRO.
+From YQ Require Import Base.Str Model.Node Model.Store Model.Eval Proofs.EvalRO Proofs.OperandsRO.
 
 (* Read-only evaluation of an expression without assignment / update / delete
    (the in-place operator flatten now works on a copy) only allocates: the
@@ -31,6 +31,53 @@ Theorem C08_select_passes_unmodified : forall f e ro vs ctx st o,
   incl (fst o) ctx /\ forall p, (fst p < length st)%nat -> deref (snd o) p = deref st p.
 Proof. exact select_passes_unmodified. Qed.
 Print Assumptions C08_select_passes_unmodified.
+
+(* "both operands of arithmetic, comparison, boolean and alternative operators are free of side effects on the
+   document", whatever the mode of the caller: true of the operators whose handler clones its context read-only
+   ([ro_binop]: + - * % != and or contains) -- in a writable context too, the store afterwards is the store before
+   with new roots appended ... *)
+Theorem C08_operands_read_only_in_any_mode : forall f o l r ro vs ctx st out,
+  ro_binop o = true -> afree l = true -> afree r = true ->
+  eval f (EBin o l r) ro vs ctx st = Ok out ->
+  (exists x, snd out = st ++ x) /\ forall p, (fst p < length st)%nat -> deref (snd out) p = deref st p.
+Proof. exact binop_operands_read_only. Qed.
+Print Assumptions C08_operands_read_only_in_any_mode.
+
+(* ... and so are conditions, keys and arguments (select, has, unique_by, group_by, sort_by, any_c, all_c) *)
+Theorem C08_conditions_and_keys_read_only_in_any_mode : forall f e ro vs ctx st out,
+  ro_arg_op e = true -> afree e = true ->
+  eval f e ro vs ctx st = Ok out ->
+  (exists x, snd out = st ++ x) /\ forall p, (fst p < length st)%nat -> deref (snd out) p = deref st p.
+Proof. exact arg_read_only. Qed.
+Print Assumptions C08_conditions_and_keys_read_only_in_any_mode.
+
+(* ... but `==`, `<` `<=` `>` `>=` and `//` evaluate their operands in the mode of their caller (known findings
+   operands-in-caller-mode): in a writable context `(.b[3] == 1), .` on {"b": [1]} pads the document, where
+   `(.b[3] != 1), .` leaves it alone *)
+Definition c08_doc := Map [([98], Seq [(RIdx 0, Scalar TInt [49])])].
+Definition c08_padded :=
+  Map [([98], Seq [(RIdx 0, Scalar TInt [49]); (RIdx 1, Scalar TNull [110; 117; 108; 108]);
+                   (RIdx 2, Scalar TNull [110; 117; 108; 108]); (RIdx 3, Scalar TNull [110; 117; 108; 108])])].
+Definition c08_prog (o : binop) := EUnion (EBin o (EIndex (EKey [98]) (Some (ELit TInt [51]))) (ELit TInt [49])) ESelf.
+Definition ends_with (s t : str) : Prop := exists pre, s = pre ++ t.
+
+Theorem C08_operands_in_caller_mode_refuted :
+  ends_with (run (c08_prog OEq) c08_doc) (ser_node c08_padded ++ [10]) /\
+  ends_with (run (c08_prog OLt) c08_doc) (ser_node c08_padded ++ [10]) /\
+  ends_with (run (c08_prog OGe) c08_doc) (ser_node c08_padded ++ [10]) /\
+  ends_with (run (c08_prog OAlt) c08_doc) (ser_node c08_padded ++ [10]) /\
+  ends_with (run (c08_prog ONe) c08_doc) (ser_node c08_doc ++ [10]) /\
+  ends_with (run (c08_prog OAdd) c08_doc) (ser_node c08_doc ++ [10]).
+Proof.
+  repeat split.
+  - exists (tag_ok ++ ser_node (Scalar TBool [102; 97; 108; 115; 101]) ++ [10]). vm_compute. reflexivity.
+  - exists (tag_ok ++ ser_node (Scalar TBool [102; 97; 108; 115; 101]) ++ [10]). vm_compute. reflexivity.
+  - exists (tag_ok ++ ser_node (Scalar TBool [102; 97; 108; 115; 101]) ++ [10]). vm_compute. reflexivity.
+  - exists (tag_ok ++ ser_node (Scalar TInt [49]) ++ [10]). vm_compute. reflexivity.
+  - exists (tag_ok ++ ser_node (Scalar TBool [116; 114; 117; 101]) ++ [10]). vm_compute. reflexivity.
+  - exists (tag_ok ++ ser_node (Scalar TInt [49]) ++ [10]). vm_compute. reflexivity.
+Qed.
+Print Assumptions C08_operands_in_caller_mode_refuted.
 
 (* non-vacuity: the model can express mutation — a *writable* traversal pads the
    document — so the theorems above are not true by construction; and an
